@@ -3,6 +3,7 @@ package props
 import (
 	"fmt"
 	"math"
+	"math/big"
 	"sort"
 
 	"github.com/DataDog/sketches-go/ddsketch"
@@ -306,7 +307,8 @@ type skModel struct {
 	m        mapping.IndexMapping
 	pos, neg model.Map
 	zero     float64
-	vals     []obs.VW // everything absorbed with weight > 0 (values as given)
+	vals     []obs.VW     // everything absorbed with weight > 0 (values as the sketch saw them; after a unit change: fl(v*scale), as min/max are rescaled)
+	truth    []*big.Float // the exact value of each entry (exact product of the original value and every unit-change factor): reference for the sum
 }
 
 func newSkModel(m mapping.IndexMapping) *skModel {
@@ -326,12 +328,22 @@ func (k *skModel) add(v, w float64) {
 		k.zero += w
 	}
 	k.vals = append(k.vals, obs.VW{V: v, W: w})
+	k.truth = append(k.truth, new(big.Float).SetPrec(600).SetFloat64(v))
+}
+
+// rescale applies a unit change to the value list (the per-side maps are not tracked through it).
+func (k *skModel) rescale(scale float64) {
+	sc := new(big.Float).SetPrec(600).SetFloat64(scale)
+	for i := range k.vals {
+		k.vals[i].V *= scale
+		k.truth[i] = new(big.Float).SetPrec(600).Mul(k.truth[i], sc)
+	}
 }
 
 func (k *skModel) total() float64 { return k.zero + k.pos.Total() + k.neg.Total() }
 
 func (k *skModel) copy() *skModel {
-	return &skModel{m: k.m, pos: k.pos.Copy(), neg: k.neg.Copy(), zero: k.zero, vals: append([]obs.VW(nil), k.vals...)}
+	return &skModel{m: k.m, pos: k.pos.Copy(), neg: k.neg.Copy(), zero: k.zero, vals: append([]obs.VW(nil), k.vals...), truth: append([]*big.Float(nil), k.truth...)}
 }
 
 func (k *skModel) clear() {
@@ -339,6 +351,7 @@ func (k *skModel) clear() {
 	k.neg.Clear()
 	k.zero = 0
 	k.vals = nil
+	k.truth = nil
 }
 
 func (k *skModel) scale(f float64) {
@@ -356,6 +369,7 @@ func (k *skModel) merge(o *skModel, oc skCfg) {
 	k.neg.Merge(expected(oc.neg, o.neg))
 	k.zero += o.zero
 	k.vals = append(k.vals, o.vals...)
+	k.truth = append(k.truth, o.truth...)
 }
 
 // refold replaces the unfolded content by the folded one (after a round-trip through an encoding or a fresh store).
@@ -367,9 +381,10 @@ func (k *skModel) refold(c skCfg) {
 // exact statistics of the absorbed values.
 func (k *skModel) stats() (count, min, max, sum, sumAbs float64) {
 	min, max = math.Inf(1), math.Inf(-1)
-	// exact-ish sum with a compensated accumulation in extended form (sorted by magnitude to keep the reference tight)
-	terms := make([]float64, 0, len(k.vals))
-	for _, x := range k.vals {
+	// exact sum of truth_i * w_i in arbitrary precision (exponents span at most ~2100 bits)
+	acc := new(big.Float).SetPrec(4400)
+	accAbs := new(big.Float).SetPrec(4400)
+	for i, x := range k.vals {
 		count += x.W
 		if x.V < min {
 			min = x.V
@@ -377,10 +392,12 @@ func (k *skModel) stats() (count, min, max, sum, sumAbs float64) {
 		if x.V > max {
 			max = x.V
 		}
-		terms = append(terms, x.V*x.W)
-		sumAbs += math.Abs(x.V * x.W)
+		term := new(big.Float).SetPrec(4400).Mul(k.truth[i], new(big.Float).SetFloat64(x.W))
+		acc.Add(acc, term)
+		accAbs.Add(accAbs, term.Abs(term))
 	}
-	sum = exactSum(terms)
+	sum, _ = acc.Float64()
+	sumAbs, _ = accAbs.Float64()
 	return
 }
 
